@@ -8,6 +8,7 @@ NUM_POOL = [0.0, 1.0, 2.0, 3.0, -1.0, 0.5, 1.5, 10.0, 100.0, -2.5, 1e300, 2.0 **
 JNUM_POOL = ['0', '1', '2', '3', '-1', '0.5', '1.5', '10', '100', '-2.5', '1e2', '1.0', '2.50', '1E1', '0.1', '1e400', '-1e999', '-0', '-0.0', '0.0']
 DEEP_ONLY_KINDS = ['intmap', 'intslice', 'namedslice', 'namedmap', 'bytes', 'freshptr', 'freshptr', 'ifacestruct', 'ifacestruct', 'emptyintslice', 'nilintslice', 'emptyintmap']
 FILTER_FUNCS = ['twice', 'wrap', 'tn', 'fail', 'fstr', 'id', 'relay', 'k3', 'zfail', 'ufail']
+PANIC_FUNCS = ['pstr']          # harness-only: panics on strings (never drawn at random; the model has no panics)
 AGG_FUNCS = ['cnt', 'first', 'arr', 'afail', 'amax', 'c5', 'azfail']
 
 
